@@ -262,3 +262,75 @@ Proof.
   - unfold solve_qmr. rewrite Hg, Eax. cbn [bind]. rewrite Er. cbn [bind]. rewrite Ee. cbn [bind]. rewrite Ht. eauto.
 Qed.
 End Startup.
+
+Section Lengths.
+Context {A : SArith}.
+Notation F := (T (SA A)).
+Variables (mulA mulAT : list F -> res (list F)) (rows cols : nat).
+
+(* the x-component of an output / of a step *)
+Definition out_x_len (L : nat) (o : iout A) : Prop := length (snd (fst o)) = L.
+
+Lemma vadd_len (u v w : list F) : vadd u v = Ok w -> length w = length u.
+Proof. intros E. apply vadd_Ok in E as (Hl & ->). now apply zipw_length. Qed.
+
+Ltac len_fin :=
+  repeat match goal with
+  | E : vadd ?u _ = Ok ?w |- _ => apply vadd_len in E
+  | E : Ok _ = Ok _ |- _ => injection E; clear E; intros; subst
+  end; cbn in *; try congruence; try lia.
+
+Lemma loop_len {S} (body : nat -> S -> res (step_out S)) (final : S -> iout A) (xs : S -> list F) L fuel s0 o :
+  (forall i s out, length (xs s) = L -> body i s = Ok out ->
+     match out with Continue s' => length (xs s') = L | Return o => out_x_len L o end) ->
+  (forall s, snd (fst (final s)) = xs s) ->
+  length (xs s0) = L -> iloop body final fuel 1 s0 = Ok o -> out_x_len L o.
+Proof.
+  intros Hb Hf H0 E.
+  destruct (iloop_char body final (fun _ s => length (xs s) = L)
+              (fun i s s' HI Eb => Hb i s (Continue s') HI Eb) fuel 1 s0 o H0 E)
+    as [(i & s & _ & HI & Eb)|(s & HI & ->)].
+  - exact (Hb i s (Return o) HI Eb).
+  - unfold out_x_len. now rewrite Hf.
+Qed.
+
+Lemma cg_body_len L tol normb i s out : length (cg_x s) = L -> cg_body mulA rows tol normb i s = Ok out ->
+  match out with Continue s' => length (cg_x s') = L | Return o => out_x_len L o end.
+Proof. intros HL. unfold cg_body. intros H. inv_res; unfold out_x_len; len_fin. Qed.
+
+Lemma bicg_body_len L itol tol bnrm i s out : length (bi_x s) = L -> bicg_body mulA mulAT rows itol tol bnrm i s = Ok out ->
+  match out with Continue s' => length (bi_x s') = L | Return o => out_x_len L o end.
+Proof. intros HL. unfold bicg_body. intros H. inv_res; unfold out_x_len; len_fin. Qed.
+
+Lemma stab_body_len L rtilde tol normb i s out : length (st_x s) = L -> stab_body mulA rows rtilde tol normb i s = Ok out ->
+  match out with Continue s' => length (st_x s') = L | Return o => out_x_len L o end.
+Proof. intros HL. unfold stab_body. intros H. inv_res; unfold out_x_len; len_fin. Qed.
+
+Lemma qmr_body_len L tol normb i s out : length (q_x s) = L -> qmr_body mulA mulAT tol normb i s = Ok out ->
+  match out with Continue s' => length (q_x s') = L | Return o => out_x_len L o end.
+Proof. intros HL. unfold qmr_body, qmr_exit. intros H. inv_res; unfold out_x_len; len_fin. Qed.
+
+(* whatever a solver returns, x has the length of the caller's x *)
+Lemma run_length sv b x0 n tol o x g :
+  run mulA mulAT rows cols sv b x0 n tol = Ok (o, x, g) -> length x = length x0.
+Proof.
+  intros H. change (out_x_len (length x0) (o, x, g)).
+  destruct sv as [|itol| |]; cbn [run] in H.
+  - unfold solve_cg in H. inv_res.
+    + injection H as <- <- <-. reflexivity.
+    + eapply (loop_len _ _ cg_x); [| | |exact H]; auto.
+      intros i s out. apply cg_body_len.
+  - unfold solve_bicg in H. inv_res.
+    + injection H as <- <- <-. reflexivity.
+    + eapply (loop_len _ _ bi_x); [| | |exact H]; auto.
+      intros i s out. apply bicg_body_len.
+  - unfold solve_bicgstab in H. inv_res.
+    + injection H as <- <- <-. reflexivity.
+    + eapply (loop_len _ _ st_x); [| | |exact H]; auto.
+      intros i s out. apply stab_body_len.
+  - unfold solve_qmr in H. inv_res.
+    + injection H as <- <- <-. reflexivity.
+    + eapply (loop_len _ _ q_x); [| | |exact H]; auto.
+      intros i s out. apply qmr_body_len.
+Qed.
+End Lengths.
